@@ -276,7 +276,7 @@ def prefetch_same_example(res, tier):
         if True:
             cfgs.append(dict(entry='prefetch', n=n, w=2, b=b, backend='t', pre=['cache', 'tile2'], post_tile=True,
                              log_points=['start']))
-    jobs = [(c, 'P', None) for c in cfgs]
+    jobs = [(c, 'D', None) for c in cfgs]
     before = len(res.violations)
     _e2.run_matrix('C10', 'oracle_once', jobs, res, 'E2: cache().tile(2).prefetch(2, b), all schedules')
     return len(res.violations) - before
